@@ -202,10 +202,10 @@ def check_model_case(case, ctx):
                 else:
                     tgt = desc['books'][node[1]]['sheets'][node[2]]['cells'].get(
                         '%s%d' % (gw.col_name(node[3]), node[4])) or {}
-                    if 'f' in tgt or str(tgt.get('v', '')).startswith('#'):
+                    if 'f' in tgt or str(tgt.get('v', '')).startswith('#') or not tgt:
                         # a name over a cell with a formula of its own (error
-                        # constants are formulas here): the open finding
-                        # C07-range-override-stale-member owns that clause
+                        # constants are formulas here) or over an unpopulated
+                        # cell: the open C07 findings own those clauses
                         ok = False
                     ov[tuple(node[1:5])] = wbrun.canon_value(a)
         if ok:
